@@ -68,7 +68,9 @@ def rule_one_append(ctx, rep):
     )
     for q in (REGEX_MOD + ".RegexTransformerPipeline._apply", REGEX_MOD + ".SastRegexTransformerPipeline._apply"):
         fn = ctx.prog.func(q)
-        loops = [n for n in walk_no_nested(fn.node) if isinstance(n, ast.For)]
+        pp_ = fn.positional_params()
+        lines_param = pp_[1] if len(pp_) > 1 else "original_lines"
+        loops = [n for n in walk_no_nested(fn.node) if isinstance(n, ast.For) and lines_param in names_in(n.iter)]
         if not loops:
             rep.check("R-ONE-APPEND-PER-LINE", q, fn.loc(), False, "loop", "no loop over the input lines")
             continue
